@@ -17,7 +17,7 @@ def go_env():
     return env
 
 
-def run_go_test(pkg_rel, files, run_regex, args=None, timeout=180, extra_env=None, tags=None):
+def run_go_test(pkg_rel, files, run_regex, args=None, timeout=180, extra_env=None, tags=None, verbose=False):
     """files: list of source test files to inject into /repo/<pkg_rel>.
     Returns (returncode, output)."""
     tmp = tempfile.mkdtemp(prefix="verif_ov_")
@@ -35,6 +35,8 @@ def run_go_test(pkg_rel, files, run_regex, args=None, timeout=180, extra_env=Non
         cmd = ["go", "test", "-overlay", ovp, "-vet=off", "-count=1", "-timeout", "%ds" % timeout, "-run", run_regex]
         if tags:
             cmd += ["-tags", tags]
+        if verbose:
+            cmd.append("-v")
         cmd.append("./" + pkg_rel)
         try:
             p = subprocess.run(cmd, cwd=REPO, env=env, stdout=subprocess.PIPE, stderr=subprocess.STDOUT, text=True, timeout=timeout + 60)
@@ -50,7 +52,7 @@ def run_bounded(d, meta, tier, seed):
     for h in meta.get("helpers", []):
         files.append(os.path.join(ROOT, h))
     env = {"VERIF_TIER": tier, "VERIF_SEED": str(seed)}
-    rc, out = run_go_test(meta["pkg"], files, meta["run"], timeout=meta.get("timeout", 300), extra_env=env)
+    rc, out = run_go_test(meta["pkg"], files, meta["run"], timeout=meta.get("timeout", 300), extra_env=env, verbose=True)
     res = {"harness": os.path.basename(d), "bound": meta.get("bound", ""), "label": "bounded (not counted as proved)", "cases": 0, "failures": []}
     for ln in out.splitlines():
         ln = ln.strip()
